@@ -255,3 +255,20 @@ pub fn probe_grammar(logv: &[Ev]) -> Result<(), Fail> {
     }
     Ok(())
 }
+
+/// Quick tier: explore a few core scenarios one deviation deeper (one canonical order, split
+/// over 4 processes). `pick` selects them by name.
+pub fn deepen(out: &mut Vec<Scenario>, pick: &dyn Fn(&str) -> bool) {
+    let mut extra = vec![];
+    for s in out.iter() {
+        if pick(&s.name) && !s.unbounded && !s.loop_body {
+            let mut c = s.clone();
+            c.bound = s.bound + 1;
+            c.orders = vec![s.orders[0]];
+            c.shards = 4;
+            c.name = format!("{}#deep", s.name);
+            extra.push(c);
+        }
+    }
+    out.extend(extra);
+}
